@@ -1,6 +1,6 @@
 (* C06/Props.v — property-level theorems only. Tags [FULL]/[PARTIAL]/[REFUTED] are read by bin/check. *)
 From Coq Require Import List NArith ZArith.
-From BLB Require Import Lib.CRC Lib.CRCProofs C06.Model C06.Spec C06.Proofs C06.ProofsRefuted C06.ProofsRecover C06.ProofsCrash C06.ProofsCache C06.ProofsTrim C06.ProofsBurst C06.ProofsRefine C06.ProofsCacheFs C06.ProofsEntry.
+From BLB Require Import Lib.CRC Lib.CRCProofs C06.Model C06.Spec C06.Proofs C06.ProofsRefuted C06.ProofsRecover C06.ProofsCrash C06.ProofsCache C06.ProofsTrim C06.ProofsBurst C06.ProofsRefine C06.ProofsCacheFs C06.ProofsEntry C06.CrashCache C06.ProofsPower.
 Import ListNotations.
 Open Scope N_scope.
 
@@ -183,3 +183,42 @@ Theorem wal_sync_discipline :
     end.
 Proof. exact sync_discipline. Qed.
 Print Assumptions wal_sync_discipline.
+
+(* [FULL] crash_prefix is included in crash_cache: for every cache state whose histories end in the volatile state,
+   every mutation list, every crash point j and every cut of the write in flight, the prefix-crash state -- the
+   first j mutations applied, the write j cut at any byte -- is one of the power-loss states of the write-back
+   cache model of CrashCache.v, in which the directory is any of its versions since the last directory sync and
+   every file any of its versions since its last fsync or a torn state between two of them *)
+Theorem crash_prefix_in_crash_cache :
+  forall P ms j cut,
+    pwf P -> (j <= length ms)%nat -> cut_ok ms j cut ->
+    crash_cache (run_pfs P (firstn (match cut with None => j | Some _ => S j end) ms)) (crash_fs (p_vol P) ms j cut).
+Proof. exact prefix_in_cache. Qed.
+Print Assumptions crash_prefix_in_crash_cache.
+
+(* [FULL] power-loss safety of the repaired code, with exactly the un-synced ftruncate carved out: for every roll
+   threshold above 0, every scenario of Appends, Truncates, Trims and reopens in which no operation issues an
+   ftruncate -- Truncates that remove whole files or nothing are included -- every crash point and EVERY crash_cache
+   state at that point -- un-synced bytes absent or present up to any prefix, a created file absent until the
+   directory sync, an unlinked file still present until the directory sync -- reopens to a gap-free run containing
+   every acknowledged and not removed record with its bytes, followed by at most a prefix of the unacknowledged
+   batch, with FirstID, LastID and Append acceptance as in wal_crash_atomic. This is the theorem that needs the
+   fsync at the end of every Append and the directory sync after every create and unlink *)
+Theorem wal_powerloss :
+  forall (maxsz : N) (ops : list wal_op) (i j : nat),
+    0 < maxsz -> Forall valid_op ops ->
+    no_ftruncate repaired maxsz (mkLive None [] []) ops ->
+    powerloss_at repaired maxsz ops i j.
+Proof. exact powerloss_no_ftruncate. Qed.
+Print Assumptions wal_powerloss.
+
+(* [REFUTED] power-loss safety without the carve-out is false for the code as it stands, because logFile.Truncate
+   does not fsync after its ftruncate. Witness, roll threshold 40: Append of records 1,2,3 in one batch, Truncate
+   to 2 which cuts inside the file, Append of a new record 3 which rolls to a new file and fsyncs only that one,
+   all acknowledged. After a power loss the old file may still end with the removed record 3 and the reopened log
+   iterates ids 1,2,3,3 which is not gap-free. Outside the crash quantifier of C06 -- the un-synced operation is
+   a truncation, not a write -- hence an observation, not a C06 finding *)
+Theorem wal_powerloss_refuted_unsynced_ftruncate :
+  exists maxsz ops i j, 0 < maxsz /\ Forall valid_op ops /\ ~ powerloss_at repaired maxsz ops i j.
+Proof. exact pl_refuted_packed. Qed.
+Print Assumptions wal_powerloss_refuted_unsynced_ftruncate.
